@@ -3003,6 +3003,15 @@ def register_x509_certificate_alg(cert_algorithm: bytes, default: bool) -> None:
         _certificate_alg_map[cert_algorithm] = (None, SSHX509CertificateChain)
 
 
+def get_signature_alg(algorithm: bytes) -> bytes:
+    """Return the signature algorithm used with a key or certificate algorithm"""
+
+    if algorithm.startswith(b'x509v3-'):
+        return algorithm[7:]
+    else:
+        return _certificate_sig_alg_map.get(algorithm, algorithm)
+
+
 def get_public_key_algs() -> List[bytes]:
     """Return supported public key algorithms"""
 
